@@ -32,7 +32,7 @@ def run(ctx):
     ctx.coverage.update({
         "evaluations": st["texts"] + st["files"] + st["text_cases"],
         "distinct_nontrivial": len(distinct),
-        "rule": "generated corpus (identifiers incl. raw identifiers/keywords/non-ASCII, rename/tag/content strings incl. spaces, hyphens, leading digits, `$`, `.`, the empty string, quotes and backslashes, adversarial doc text, every rename_all rule on plain and type-overridden fields), compiled against /repo; every real export_to_string() and every file written by export_all_to of every exportable corpus type (incl. files shared by several types) is parsed by the independent lexer + recursive-descent parser (tools/tsparse.py, written from the TypeScript grammar): begins with the notice, only `import type` statements followed by `export type` declarations, every requested type declared exactly once under its TypeScript name, no reserved word as a type name, final newline; model text vs real text byte for byte; non-trivial = distinct files/texts parsed",
+        "rule": "generated corpus (identifiers incl. raw identifiers/keywords/non-ASCII, rename/tag/content strings incl. spaces, hyphens, leading digits, `$`, `.`, the empty string, quotes and backslashes, adversarial doc text, every rename_all rule on plain and type-overridden fields), compiled against /repo; for every export Coq evaluates export_okb (the hypothesis of C04_export_parses: the text is then derivable in the grammar of Spec/TsGrammar.v; the independent reader must accept the same real text); every real export_to_string() and every file written by export_all_to of every exportable corpus type (incl. files shared by several types) is parsed by the independent lexer + recursive-descent parser (tools/tsparse.py, written from the TypeScript grammar): begins with the notice, only `import type` statements followed by `export type` declarations, every requested type declared exactly once under its TypeScript name, no reserved word as a type name, final newline; model text vs real text byte for byte; non-trivial = distinct files/texts parsed",
         "samples": samples[:5],
         "distribution": st,
     })
@@ -84,6 +84,25 @@ def check_one(ctx, res, seed, st, samples, distinct):
             st["declarations"] += len(m["decls"])
             st["imports"] += len(m["imports"])
         report(ctx, viol, st, probs, by[t[1]], text, "export_to_string() of %s" % C.rust_ty(t), seed)
+    # (1b) the grammar theorem's hypothesis, evaluated by Coq on the model's pieces of every export (C04_export_parses):
+    # where it holds the text is derivable in Spec/TsGrammar.v, and the independent reader must agree on the REAL text
+    okb = syntax_checks(res)
+    parse_ok = {}
+    for i, t in enumerate(qs):
+        text = res["q"][i]["export"]
+        if t[0] != "named" or text.startswith("\x00") or i not in okb:
+            continue
+        st["grammar_hypothesis_evaluated"] = st.get("grammar_hypothesis_evaluated", 0) + 1
+        pr = []
+        check_text(None, text, None, pr)
+        if okb[i]:
+            st["inside_grammar_theorem"] = st.get("inside_grammar_theorem", 0) + 1
+            if any(x.startswith("does not parse") for x in pr) and not mism:
+                ctx.fail("Coq proves the export text is in the grammar, the independent reader rejects the same text", dict(
+                    kind="correspondence-broken", broken="tools/tsparse.py vs Spec/TsGrammar.v (C04_export_parses applies: export_okb = true)",
+                    type=C.rust_ty(t), text=text, reader=pr, seed=seed), no_input=True)
+        else:
+            st["outside_grammar_theorem"] = st.get("outside_grammar_theorem", 0) + 1
     # (2) every file of every real export tree
     status = CR.run_export(res["exe"], EXPORT_DIR)
     path_types = {}
@@ -126,6 +145,27 @@ def check_one(ctx, res, seed, st, samples, distinct):
         ctx.fail("model and implementation disagree on generated text (correspondence)", dict(
             kind="correspondence-broken", broken="Corr/corpus_env: Model/Gen.v + GenExport.v vs real export_to_string()/decl()", first=mism[0], count=len(mism), seed=seed),
             no_input=True)
+
+
+def syntax_checks(res):
+    """export_okb (Proofs/Grammar_export_proofs.v) of every derived query type, and classes_ok of the Unicode tables"""
+    import re
+    qs = res["queries"]
+    named = [i for i, t in enumerate(qs) if t[0] == "named"]
+    body = ("From TsRs Require Import Corr.%s Spec.TsSyn Proofs.Grammar_export_proofs.\n" % res["envname"] + CR.HEADER +
+            "Definition bit (b : bool) : N := if b then 49 else 48.\n"
+            "Eval vm_compute in (bit (classes_ok is_alnum is_numeric) :: map (fun t => bit (export_okb is_upper is_alnum is_numeric R false cwd fuel t (lit \"./bindings\"))) %s).\n"
+            % vlib.coq_list([C.coq_ty(qs[i]) for i in named], sep=";\n "))
+    ok, out = vlib.coq_eval("%s_syn" % res["envname"], body, timeout=1800)
+    if not ok:
+        raise vlib.HarnessError("syntax check file failed: " + out[-3000:])
+    vals = vlib.parse_coq_str_list("[" + out.split("=", 1)[1].rsplit(":", 1)[0] + "]")
+    bits = vals[0] if vals else ""
+    if len(bits) != len(named) + 1:
+        raise vlib.HarnessError("syntax check: %d answers for %d types" % (len(bits), len(named) + 1))
+    if bits[0] != "1":
+        raise vlib.HarnessError("classes_ok is false: ASCII letters are not alphanumeric / are numeric in the Unicode tables")
+    return {i: b == "1" for i, b in zip(named, bits[1:])}
 
 
 def report(ctx, viol, st, probs, d, text, where, seed):
